@@ -142,7 +142,7 @@ static void dumpAny(const codec::BinaryCodec* v, std::vector<std::string>& out);
 	b.WriteString("static void setChecksums(bool on) {\n  ChecksumServiceContext::instance().clear();\n  if (!on) return;\n")
 	algs := Algs(p)
 	for _, a := range sortedKeys(algs) {
-		fmt.Fprintf(&b, "  ChecksumServiceContext::instance().reg(%q, [](const std::vector<uint8_t>& d) { uint32_t h = 7; for (auto c : d) h = (h * 131u + c + 1u) & 0x7fffffffu; return (uint64_t)h; });\n", a)
+		fmt.Fprintf(&b, "  ChecksumServiceContext::instance().reg(%q, [](const std::vector<uint8_t>& d) { uint32_t h = 7; for (auto c : d) h = (h * 131u + c + 1u) & 0x7fffffffu; if ((h & 7u) == 0) h = 0; return (uint64_t)h; });\n", a)
 	}
 	b.WriteString("}\n")
 	b.WriteString(`
@@ -214,9 +214,9 @@ func BuildCpp(p *dsl.Program, files map[string][]byte, dir string, withTests boo
 			if strings.HasSuffix(name, "_test.cpp") {
 				r := cli.Run(dir, buildTimeout, nil, nil, "g++", append(append([]string{}, flags...), "-o", filepath.Join(dir, "emitted_tests"), filepath.Join(out, name))...)
 				if r.TimedOut {
-		panic("harness: toolchain timed out (machine overloaded?)")
-	}
-	if r.Exit != 0 {
+					panic("harness: toolchain timed out (machine overloaded?)")
+				}
+				if r.Exit != 0 {
 					return nil, &BuildError{"cpp", "emitted-tests", string(r.Stderr)}
 				}
 			}
